@@ -246,14 +246,21 @@ def obtain(spec):
         server = StubServer(klass)
     # both call forms: values_default omitted, and passed (also when it is None)
     kw = {} if spec['dflt'] is None and spec['route'] == 'stub' else dict(values_default=spec['dflt'])
+    # the class object the server hands out may be shared (a class cache): building a mapping must
+    # not change it, otherwise the next mapping built from it is wrong
+    before = klass.tomof() if spec['route'] == 'stub' and spec['type'] in TYPES else None
     try:
         try:
-            if spec['kind'] in ('prop', 'prop[]'):
-                vm = ValueMapping.for_property(server, NS, CLASSNAME, 'P', **kw)
-            elif spec['kind'] == 'method':
-                vm = ValueMapping.for_method(server, NS, CLASSNAME, 'M', **kw)
-            else:
-                vm = ValueMapping.for_parameter(server, NS, CLASSNAME, 'M', 'Q', **kw)
+            try:
+                if spec['kind'] in ('prop', 'prop[]'):
+                    vm = ValueMapping.for_property(server, NS, CLASSNAME, 'P', **kw)
+                elif spec['kind'] == 'method':
+                    vm = ValueMapping.for_method(server, NS, CLASSNAME, 'M', **kw)
+                else:
+                    vm = ValueMapping.for_parameter(server, NS, CLASSNAME, 'M', 'Q', **kw)
+            finally:
+                if before is not None and klass.tomof() != before:
+                    return 'raised', 'class-object-of-the-server-modified', 'factory'
         except (ModelError, ValueError) as exc:
             return 'rejected', type(exc).__name__, None
         except Exception as exc:
